@@ -101,36 +101,61 @@ CLAIMS.update({
         note=TB,
         ref='DESIGN.md §5 C09'),
     'C04': dict(
-        category='exploration',
-        technique='differential execution of the -c and non -c builds under the Lean exec specification (proof of rule soundness pending)',
-        text=('Every instruction line of every generated program is assembled without and with -c by the real assembler and both encodings are '
-              'executed by the Lean specification (decode32 / decode16+expand16 / exec) from 8 register files; registers written, memory '
-              'stores and control-transfer target (mapped through the label tables of both layouts) must agree; data bytes must be identical. '
-              'Label-dependent immediates are checked against the final offsets in both modes. Known finding KF-A4 (stale compression decisions).'),
-        note=TB + ' exec is a hand-written RV32IM + RVC-expansion semantics; theorems for the compression rules are not yet in the build.',
+        category='proof',
+        technique='Lean 4 theorems: soundness of every compression rule for every operand and every machine state (rule_sound, 29 criteria), item-wise shape of the pass, stability lemmas; + differential execution of the -c and non -c builds under the Lean exec specification',
+        text=('Theorems: for each of the 29 entries of the criteria table, every instruction, every evaluation of its immediates and every '
+              'machine state: if the predicates hold and the 32-bit instruction denotes i, the replacement form denotes a LEGAL compressed '
+              'instruction ci with execC ci s = exec i 2 s (rule_sound / rule_sound_model / rule_sound_wellKinded); the operands of the '
+              'replacement are in range (rule_in_range); the pass is item-wise and leaves every non-instruction item alone '
+              '(compress_pass_itemwise, data_unchanged, compressBody_instr); a decision taken on a label-free immediate stays sound under any '
+              'other label table and position (literal_decision_stable), a decision that re-evaluates to true at the final values is sound '
+              'there (stable_item_sound). NOT a theorem: the composition over two whole runs (-c off / on carry different label tables; the '
+              'statement compress_same_ops_statement is kept as a def) - that part is explored: every instruction line of every generated '
+              'program is assembled both ways by the real assembler and both encodings are executed by the Lean specification from 8 register '
+              'files; registers written, stores and the control-transfer target (mapped through both label tables) must agree, data bytes '
+              'must be identical. Known findings KF-A4, KF-A7 (decisions taken on label-dependent values that later move) are exactly the '
+              'cases the stability hypothesis excludes.'),
+        note=TB + ' exec / execC are a hand-written RV32IM + RVC semantics (lean/BB/Spec/Exec.lean).',
         ref='DESIGN.md §5 C04'),
     'C05': dict(
-        category='exploration',
-        technique='execution of emitted code under the Lean exec specification vs the documented effect (theorems pending)',
-        text=('For every pseudo-instruction line (all 27, all register choices incl. rd=rs/x0/sp, li values on the 12-/32-bit edges, all '
-              'target distance classes incl. far call/tail) the code emitted by the real assembler, without and with -c, is executed by the Lean '
-              'specification from 8 register files and compared with the documented effect computed from the same registers: destination '
-              'value, no other register changed (except the documented scratch of far tail), pc.'),
-        note=TB,
+        category='proof',
+        technique='Lean 4 theorems: effect of every pseudo-instruction expansion under the exec specification for all registers, values and states; expansion = documented table; emitted words denote the expansion; + execution of the real output',
+        text=('Theorems: for every pseudo-instruction of the reference, all register numbers, all values / offsets and all machine states, '
+              'executing the documented expansion under BB.Spec.exec has exactly the documented effect: li (short and long form, every v, '
+              'incl. rd = x0), mv not neg seqz snez sltz sgtz, the ten pseudo-branches (condition on the signed / unsigned register values), '
+              'j jal jr jalr ret, near and far call / tail (far: pc + off reached from an even pc, x1 = pc + 8 / x6 scratch), nop, fence '
+              '(*_effect); the model expands each mnemonic to exactly the documented instructions (expand_matches_doc, expand_*), and the '
+              'words the encoder emits for them decode to those instructions (bridge_*, emitted_word_denotes, li_long_emitted, '
+              'call_far_emitted). Tie and search: for every pseudo-instruction line (all 27, all register choices incl. rd=rs/x0/sp, li '
+              'values on the 12-/32-bit edges, all distance classes incl. far call/tail) the code emitted by the REAL assembler, without '
+              'and with -c, is executed by the Lean specification from 8 register files and compared with the documented effect. Known '
+              'findings KF-A6 / KF-D5: li whose operand depends on labels (width decided early).'),
+        note=TB + ' call_far_effect / tail_far_effect need an even pc (JALR clears bit 0); the hypothesis-free forms are *_raw.',
         ref='DESIGN.md §5 C05'),
     'C12': dict(
-        category='exploration',
-        technique='outcome pairs (without / with -c) on generated programs incl. constants as shift amounts, label-dependent immediates, far call/tail',
-        text=('Each generated program is assembled both ways by the real assembler; a success without -c and a failure with -c is a violation '
-              'unless the failing line falls in the known-finding classes KF-A3 / KF-B (label-dependent immediate consulted by a compression rule).'),
+        category='proof',
+        technique='Lean 4 theorem: each compression rule preserves acceptance (compress_preserves_success_local, 29 criteria) + outcome pairs (without / with -c) on generated programs',
+        text=('Theorems: for every criterion, every instruction and every evaluation of its immediates: if the predicates hold and the '
+              '32-bit instruction encodes, the replacement form encodes too, to 2 bytes (compress_preserves_success_local / _model, via '
+              'rule_in_range: the replacement operands are legal for the compressed encoder). NOT a theorem: preservation over a whole '
+              'program, where later passes re-evaluate label-dependent immediates after the decision (statement kept as '
+              'compress_preserves_success_statement); explored instead: each generated program is assembled both ways by the real assembler; '
+              'success without -c and failure with -c is a violation unless the failing line is in the known-finding classes KF-A3 / KF-B '
+              '(a compression rule consulted a label-dependent immediate that later left the compressed operand set).'),
         note=TB,
         ref='DESIGN.md §5 C12'),
     'C20': dict(
-        category='exploration',
-        technique='eligibility decided by the Lean RVC specification (eligible = expansion of a legal RV32C instruction) vs emitted length; size / label monotonicity',
-        text=('For every literal-operand instruction line the Lean specification decides whether the 32-bit instruction is the expansion of a legal '
-              'non-hint RV32C instruction; if so the -c build must emit 2 bytes. Binary length and every label offset with -c must not exceed '
-              'those without. Known finding KF-A5 (label arithmetic in li).'),
+        category='proof',
+        technique='Lean 4 theorems: every eligible, encodable instruction is matched by a compression criterion (eligible_compressed, per mnemonic and umbrella); a match always yields a 2-byte form; no item grows; + eligibility oracle on the real output',
+        text=('Theorems: eligible_compressed - for every well-kinded instruction whose resolved form denotes i and is accepted by the 32-bit '
+              'encoder, if the RVC specification says i is the expansion of a legal non-hint compressed instruction then some criterion '
+              'matches (18 per-mnemonic theorems + umbrella; firstMatch_decides reduces the model\'s predicate evaluation to a numeric one); '
+              'first_match_is_16bit / matched_has_form - a match always produces a 2-byte replacement of a 4-byte instruction; '
+              'compress_never_grows - no item of the pass grows; padTo_mono - alignment padding cannot make a later offset overtake. NOT a '
+              'theorem: the induction over whole programs that labels and total length do not grow (nothing_grows_statement kept as a '
+              'def); explored: for every literal-operand instruction line the Lean specification decides eligibility of the word emitted '
+              'without -c and the -c build must emit 2 bytes; binary length and every label offset with -c must not exceed those without. '
+              'Known finding KF-A5 (label arithmetic in li).'),
         note=TB,
         ref='DESIGN.md §5 C20'),
 })
